@@ -166,7 +166,7 @@ theorem atomic_partial (fs₀ : FS) (pre : Store) (txn : Txn) (b : Backend)
 example :
     let pre : Store := [(1, .doc 10 []), (3, .doc 30 [1]), (4, .doc 40 [1])]
     let fs₀ := mkFS .zip pre []
-    let txn := Txn.overwrite 4 (.mk (some 4) 41 true false [.mk (some 2) 20 true false [], .mk (some 1) 10 true true []])
+    let txn := Txn.overwrite 4 (.mk (some 4) 0 41 true false [.mk (some 2) 1 20 true false [], .mk (some 1) 2 10 true true []])
     view .zip fs₀ = some pre ∧ allLoadB pre = true ∧ wfTxnB .zip fs₀ txn pre = true ∧
     (compileTxn .zip fs₀ txn).1.length = 13 ∧
     finalStore .zip fs₀ txn pre ≠ pre := by
